@@ -497,6 +497,11 @@ CO_ERR COSdoDownloadSegmented(CO_SDO *srv)
     uint8_t  cmd;
     uint8_t  bid;
 
+    if (srv->Obj == 0) {
+        COSdoAbort(srv, CO_SDO_ERR_CMD);
+        return (CO_ERR_SDO_ABORT);
+    }
+
     cmd = CO_GET_BYTE(srv->Frm, 0);
     if ((cmd >> 4) != srv->Seg.TBit) {
         COSdoAbort(srv, CO_SDO_ERR_TBIT);
@@ -534,6 +539,8 @@ CO_ERR COSdoDownloadSegmented(CO_SDO *srv)
         srv->Seg.Size = 0;
         srv->Seg.Num  = 0;
         srv->Obj      = 0;
+        srv->Buf.Cur  = srv->Buf.Start;
+        srv->Buf.Num  = 0;
     } else {
         if (len <= 4) {
             result = CO_ERR_SDO_WRITE;
